@@ -21,7 +21,8 @@ PROPS_MODULES = ['CfVerif.Props.C02']
 DRIVER = 'Driver/C02.lean'
 REQUIRED_THEOREMS = ['CfVerif.C02.' + n for n in (
     'trace_wf', 'connected_only_when_tables_complete', 'fully_only_when_all_values', 'sync_open_returns',
-    'fault_reaches_disconnected', 'link_error_outputs', 'reconnectable', 'handshake_completes', 'repaired_D1', 'repaired_D21',
+    'fault_reaches_disconnected', 'link_error_outputs', 'fault_inside_open_link', 'sync_open_raises_on_fault_inside_open_link',
+    'reconnectable', 'handshake_completes', 'repaired_D1', 'repaired_D21',
     'sync_open_hangs_counterexample', 'stale_fetcher_counterexample',
     'M2.repaired_D2_D3_D4_D22', 'M2.no_thread_death', 'M2.no_deadlock', 'M2.disconnected_in_bounded_steps',
     'M2.send_lock_deadlock_counterexample', 'M2.ping_self_join_counterexample', 'M2.dispatcher_death_counterexample',
@@ -30,14 +31,16 @@ TRUSTED = ['harness/corr/c02.py extractor + correspondence (incl. the sequential
            'harness/sim/crazyflie_device.py (simulated firmware, environment model: every request answered once, in order)',
            'harness/vsched (virtual scheduler; search / verdict-level agreement only)',
            'threading.Lock / RLock / Thread.join / Event semantics as modelled in Model/C02Sync and Model/C02 (Wrap)']
-ASSUMPTIONS = ['usage: one user thread; open_link only when no link is open; only an existing driver reports errors (double open is outside)',
+ASSUMPTIONS = ['usage: one user thread; open_link only when no link is open or the stored driver is dead (it failed during connect()); '
+               'only a live driver reports errors, once (double open on a live link is outside)',
                'M1 operations are atomic; the threaded refinement has the known race D23 (callback of the dispatcher thread delivered '
                'after the end of the attempt signalled concurrently by another thread)',
                'M2: one link error per scenario; every interleaving of the threads of a scenario (<= 5 active threads), not of all six at once; '
                'atomicity at the level of sync operations and the reads of cf.link',
                'outside: retry timers (C10), duplicated / stale replies (C03), TOC cache hits (C11), 1-wire memories, user callbacks that raise']
-RULE = ('M1: op scripts on the real Crazyflie+SyncCrazyflie against the simulated device: fault (driver thread / sending thread / close / '
-        'blocking close) after the k-th pump step for EVERY k of the handshake x plain / blocking open x 4-7 devices, each followed by a '
+RULE = ('M1: op scripts on the real Crazyflie+SyncCrazyflie against the simulated device: fault INSIDE open_link (error callback while '
+        'get_link_driver()/connect() has not returned) and fault (driver thread / sending thread / close / '
+        'blocking close) after the k-th pump step for EVERY k >= 0 of the handshake x plain / blocking open x 4-7 devices, each followed by a '
         'second attempt on the same object, no-driver / raising-driver attempts, and random connect/disconnect histories; compared per '
         'operation with the Lean model (callbacks, return/raise, state, link, is_link_open, is_connected, table sizes) and at the end '
         '(blocked?, WF verdict Lean vs Python twin).  M2: 10 thread scenarios x seeded random / guided schedules of the real threads under '
@@ -378,6 +381,7 @@ class M1Real:
                 return True
         self.PumpEvent = PumpEvent
         self.armed = False
+        self.fail_in_connect = False
         self.waiting = []
         self.lines = []          # [(op, [outputs])]
         self.cur = None
@@ -421,6 +425,11 @@ class M1Real:
             runner._out('LINK-ERROR')
             return orig_cb(msg)
         link.error_cb = error_cb
+        if self.fail_in_connect:
+            # the link fails while connect() / get_link_driver() has not returned: cf.link is still the old value
+            self.fail_in_connect = False
+            link.failed = True
+            link.error_cb('simulated error reported during connect()')
         orig_send = link.send_packet
 
         def send_packet(pk):
@@ -439,6 +448,10 @@ class M1Real:
     def _link_up(self):
         return self.cf.link is not None
 
+    def _dead(self):
+        """cf.link is a driver that reported its error during connect() (open_link stored it afterwards)"""
+        return self.cf.link is not None and getattr(self.cf.link, 'failed', False)
+
     def _wait_kind(self):
         if not self.waiting:
             return None
@@ -447,13 +460,13 @@ class M1Real:
     def allowed(self, op):
         w = self._wait_kind()
         if op[0] == 'open':
-            return not self._link_up() and w is None
+            return (not self._link_up() or self._dead()) and w is None
         if op[0] == 'sopen':
-            return (not self._link_up() or self.scf.is_link_open()) and w is None
+            return (not self._link_up() or self._dead() or self.scf.is_link_open()) and w is None
         if op[0] == 'sclose':
             return w is None
         if op[0] in ('err', 'arm'):
-            return self._link_up()
+            return self._link_up() and not self._dead()
         if op[0] == 'close':
             return w != 'close'
         return True
@@ -489,7 +502,9 @@ class M1Real:
         k = op[0]
         scmod = self.scmod
         if k == 'open':
-            sess.call(cf.open_link, sess.uri if op[1] == 1 else ('bogus://nothing' if op[1] == 0 else 'sim://not-registered'))
+            self.fail_in_connect = op[1] == 3
+            sess.call(cf.open_link, sess.uri if op[1] in (1, 3) else ('bogus://nothing' if op[1] == 0 else 'sim://not-registered'))
+            self.fail_in_connect = False
         elif k == 'deliver':
             link = self.link
             if link is not None and cf.link is link and not link.closed and link.ready:
@@ -521,7 +536,8 @@ class M1Real:
             try:
                 if k == 'sopen':
                     saved = self.scf._link_uri
-                    if op[1] != 1:
+                    self.fail_in_connect = op[1] == 3
+                    if op[1] not in (1, 3):
                         self.scf._link_uri = 'bogus://nothing' if op[1] == 0 else 'sim://not-registered'
                     try:
                         sess.call(self.scf.open_link)
@@ -532,6 +548,7 @@ class M1Real:
                         self.lines[-1][1].append('open-already-open' if str(e) == 'Link already open' else 'open-raised')
                     finally:
                         self.scf._link_uri = saved
+                        self.fail_in_connect = False
                 else:
                     try:
                         sess.call(self.scf.close_link)
@@ -561,7 +578,9 @@ class M1Real:
 
 
 def op_line(op):
-    return ' '.join(str(x if x in (0, 1) or not isinstance(x, int) else 0) for x in op)
+    """driver argument of open / sopen: 0 no driver, 2 driver raises (both = `missing` in the model), 1 ok,
+    3 the link fails during connect()"""
+    return ' '.join(str(x if x in (0, 1, 3) or not isinstance(x, int) else 0) for x in op)
 
 
 # ---- Python twin of Spec/C02.lean (WF automaton); cross-checked against the Lean one on every trace --------
@@ -706,6 +725,15 @@ def gen_m1_cases(ctx):
                     pre = pump(k)
                     script = [(opener, 1)] + pre + [(fault,)] + pump(2) + [(opener, 1)] + pump(n) + [('close',), ('status',)]
                     cases.append(('fault-at-k', dev, [o for o in script if o[0] != 'status']))
+    # (2b) fault INSIDE open_link (the error callback runs while get_link_driver()/connect() has not returned), plain and
+    #      blocking, followed by: retry at once / retry after close / a stale error report / a second in-connect failure
+    for dev in devs[:3]:
+        n = handshake_len(dev)
+        for opener in ('open', 'sopen'):
+            for tail in ([], [('close',)], [('deliver',), ('work',), ('close',)], [(opener, 3)], [('sclose',)], [(opener, 0)]):
+                cases.append(('fault-in-open', dev, [(opener, 3)] + tail + [(opener, 1)] + pump(n) + [('close',)]))
+            for k in (1, 3, n):       # after an earlier (partial) connection on the same object
+                cases.append(('fault-in-open', dev, [(opener, 1)] + pump(k) + [('close',), (opener, 3), (opener, 1)] + pump(n) + [('sclose',), ('close',)]))
     # (3) no usable driver / driver raising, then a good attempt
     for dev in devs[:2]:
         for opener in ('open', 'sopen'):
@@ -719,7 +747,7 @@ def gen_m1_cases(ctx):
         script = []
         for _ in range(rng.choice([10, 30, 80, 160])):
             k = rng.choice(bag)
-            script.append((k, 1 if rng.random() < 0.85 else rng.choice([0, 2])) if k in ('open', 'sopen') else (k,))
+            script.append((k, 1 if rng.random() < 0.8 else rng.choice([0, 2, 3, 3])) if k in ('open', 'sopen') else (k,))
         cases.append(('history', dev, script))
     return cases
 
@@ -736,8 +764,9 @@ def correspond_m2(ctx):
     (model says no death / goal always reachable  =>  no run may show a dead thread / a hang / a leaked lock)."""
     seeds = 40 if ctx.tier == 'thorough' else 3
     found = run_m2(ctx, seeds, count=ctx.count)
-    replies = ctx.lean(DRIVER, ['m2 ' + sc[3] for sc in M2_SCENARIOS])
-    for (name, base, kind, model_sc), rep in zip(M2_SCENARIOS, replies):
+    modelled = [sc for sc in M2_SCENARIOS if sc[3] is not None]
+    replies = ctx.lean(DRIVER, ['m2 ' + sc[3] for sc in modelled])
+    for (name, base, kind, model_sc), rep in zip(modelled, replies):
         kinds = found[name]
         ctx.case({'m2': name, 'model': model_sc, 'schedules': seeds}, ('m2', name, ctx.seed))
         real_death = 'thread-death' in kinds
@@ -827,6 +856,10 @@ def search(ctx):
         for fault in ('err', 'arm', 'close'):
             for opener in ('open', 'sopen'):
                 scripts.append((dev, [(opener, 1)] + pump(k) + [(fault,)] + pump(2) + [(opener, 1)] + pump(n) + [('close',)], (opener, k, fault)))
+    for opener in ('open', 'sopen'):
+        for tail in ([], [('close',)], [(opener, 3)]):
+            scripts.append((dev, [(opener, 3)] + tail + [(opener, 1)] + pump(n) + [('close',)], (opener, 0, 'inside-open-link')))
+        scripts.append((dev, [(opener, 1), ('err',), (opener, 1)] + pump(n) + [('close',)], (opener, 0, 'before-first-packet')))
     for (d, script, tag) in scripts:
         r, executed, out = run_m1_case(d, script)
         verdict, why, i = wf_check(executed, out[:-1])
@@ -838,12 +871,15 @@ def search(ctx):
                             '%s signalled with log=%d/%d param=%d/%d values=%d' % (ev, nlog, d[1], npar, len(d[3]), nval),
                             {'dev': dev_line(d), 'ops': [op_line(o) for o in executed]}, fault_position=k, fault=fault)
         if waiting != 'none':
-            ctx.witness('D1-sync-open-blocks-after-link-loss' if waiting == 'open' else 'sync-close-blocks',
+            ctx.witness(('sync-open-blocks-fault-%s' % fault if fault in ('inside-open-link', 'before-first-packet') else
+                         'D1-sync-open-blocks-after-link-loss') if waiting == 'open' else 'sync-close-blocks',
                         'SyncCrazyflie.%s_link never returns: the attempt ended (link lost/closed) before `connected`' % waiting,
                         {'dev': dev_line(d), 'ops': [op_line(o) for o in executed]}, fault_position=k, fault=fault)
         elif verdict != 'ok':
             stale = fault != 'close' or True
             key = 'D21-stale-fetcher-after-aborted-attempt' if i > 2 * k + 2 and stale else 'trace-not-well-formed'
+            if fault in ('inside-open-link', 'before-first-packet') and i <= 2:
+                key = 'trace-not-well-formed-fault-' + fault
             ctx.witness(key, 'callback trace violates the lifecycle: ' + str(why),
                         {'dev': dev_line(d), 'ops': [op_line(o) for o in executed[:i + 1]]}, fault_position=k, fault=fault)
 
@@ -873,6 +909,23 @@ def _vlink_class(cfg, vsched):
                 raise WrongUriType()
             self.error_cb = error_cb
             cfg['links'].append(self)
+            how = cfg.get('connect_fault')
+            if how and not cfg.get('_failed'):
+                # the link fails while connect() is still running: reported synchronously by the driver, or by the
+                # driver's own thread (which may run before or after connect() returns, depending on the schedule)
+                cfg['_failed'] = True
+
+                def report():
+                    vsched.emit('LINK-ERROR', 'driver-in-connect')
+                    self.closed = True
+                    error_cb('link failed during connect()')
+                if how == 'sync':
+                    report()
+                else:
+                    t = vsched.threading.Thread(target=report, name='driver')
+                    t.daemon = True
+                    t.start()
+                    vsched.time.sleep(0.01)
 
         def send_packet(self, pk):
             vsched.emit('tx', pk.port, pk.channel, bytes(pk.data).hex())
@@ -942,6 +995,8 @@ def m2_main(cfg, vsched):
         cfg['device'] = dev.handle
         cfg['links'] = []
         cfg.pop('_failed', None)
+        cfg['_faulted'] = cfg.get('fault') is not None or bool(cfg.get('connect_fault'))
+        cfg['_in_connect'] = bool(cfg.get('connect_fault'))
         if cfg.get('fault') in FAIL_PREDS:
             cfg['fail_pred'] = FAIL_PREDS[cfg['fault']]
         cflib.crtp.CLASSES[:] = [_vlink_class(cfg, vsched)]
@@ -1006,6 +1061,7 @@ def m2_main(cfg, vsched):
             cf.fully_connected.add_callback(lambda *a: done.set())
             cfg['fail_pred'] = None
             cfg['fault'] = None
+            cfg['connect_fault'] = None
             cf.link_statistics.start = lambda: None
             cf.open_link('vsim://x')
             done.wait(HORIZON)
@@ -1049,12 +1105,13 @@ def m2_verdict(res, cfg):
         bad.append(('hang', 'run did not finish (%s); last operations: %s' % (res.outcome, sorted(last.items()))))
         return bad
     evs = v['events']
-    faulted = cfg.get('fault') is not None
+    first = evs[:len(evs) - len(v.get('second', []))]      # the attempt under test (without the reconnect probe)
+    faulted = cfg.get('_faulted', cfg.get('fault') is not None)
     if faulted or cfg.get('user') in ('close', 'memWriteClose'):
-        if v['state'] != 0 or not v['link_none']:
+        if v['state'] != 0 or (not v['link_none'] and not cfg.get('_in_connect')):
             bad.append(('not-disconnected', 'state=%s link_none=%s at the horizon' % (v['state'], v['link_none'])))
-        if 'disconnected' not in evs and 'connection_failed' not in evs:
-            bad.append(('hang', 'neither disconnected nor connection_failed was signalled within the horizon: ' + ','.join(evs)))
+        if 'disconnected' not in first and 'connection_failed' not in first:
+            bad.append(('hang', 'neither disconnected nor connection_failed was signalled within the horizon: ' + ','.join(first)))
         if not v['ping_stopped']:
             bad.append(('hang', 'latency ping thread still alive after the disconnect'))
     if not v['incoming_alive']:
@@ -1063,7 +1120,6 @@ def m2_verdict(res, cfg):
         bad.append(('thread-death', 'parameter thread is dead'))
     if not v['send_lock_free']:
         bad.append(('lock-leak', '_send_lock still held at the horizon'))
-    first = evs[:len(evs) - len(v.get('second', []))]
     ends = [i for i, e in enumerate(first) if e in ('connection_failed', 'disconnected')]
     if ends and any(e in ('link_established', 'connected', 'fully_connected') for e in first[ends[0] + 1:]):
         bad.append(('late-callback', 'callback of the attempt delivered after its end: ' + ','.join(first)))
@@ -1105,6 +1161,10 @@ M2_SCENARIOS = [
     ('close-early', {'user': 'close', 'when': 'connected'}, 'random', 'none close 3'),
     ('driver-close', {'fault': 'driver', 'user': 'close'}, 'random', 'radio close -'),
     ('sync-driver-early', {'fault': 'driver', 'driver_when': 'early', 'sync': True, 'when': 'link_established'}, 'random', 'radio idle 3'),
+    # the link fails INSIDE open_link (no M2 model scenario: property verdict only)
+    ('driver-in-connect-sync', {'connect_fault': 'sync', 'when': 'link_established'}, 'random', None),
+    ('driver-in-connect-thread', {'connect_fault': 'thread', 'when': 'link_established'}, 'random', None),
+    ('sync-driver-in-connect-thread', {'connect_fault': 'thread', 'sync': True, 'when': 'link_established'}, 'random', None),
 ]
 M2_TRACE_POINTS = [('run', 'receive_packet(1)')]
 
